@@ -282,15 +282,18 @@ structure Keep (i : Nat) (s s' : Server) : Prop where
   peer : (getObj s' i).peerGone = (getObj s i).peerGone
   caps : s'.caps = s.caps
   acl : s'.aclDeny = s.aclDeny
+  connOf : s'.connOf = s.connOf
+  hook : s'.pubHook = s.pubHook
 
-theorem Keep.refl (i : Nat) (s : Server) : Keep i s s := ⟨rfl, rfl, rfl, rfl, rfl, rfl, rfl, rfl⟩
+theorem Keep.refl (i : Nat) (s : Server) : Keep i s s := ⟨rfl, rfl, rfl, rfl, rfl, rfl, rfl, rfl, rfl, rfl⟩
 
 /-- server fields other than `objs`, `caps`, `aclDeny` change -/
 theorem Keep.upd {i : Nat} {s0 s s' : Server} (h : Keep i s0 s) (ho : s'.objs = s.objs) (hc : s'.caps = s.caps)
-    (ha : s'.aclDeny = s.aclDeny) : Keep i s0 s' := by
+    (ha : s'.aclDeny = s.aclDeny) (hn : s'.connOf = s.connOf) (hh : s'.pubHook = s.pubHook) : Keep i s0 s' := by
   have e := getObj_of_objs_eq ho i
   exact ⟨by rw [e]; exact h.conn, by rw [e]; exact h.ver, by rw [e]; exact h.isOpen, by rw [e]; exact h.stopped,
-    by rw [e]; exact h.inline, by rw [e]; exact h.peer, hc.trans h.caps, ha.trans h.acl⟩
+    by rw [e]; exact h.inline, by rw [e]; exact h.peer, hc.trans h.caps, ha.trans h.acl, hn.trans h.connOf,
+    hh.trans h.hook⟩
 
 /-- the acting object is rewritten by a function that keeps the six fields -/
 theorem Keep.mod {i : Nat} {s0 s : Server} (h : Keep i s0 s) (f : Client → Client)
@@ -300,13 +303,14 @@ theorem Keep.mod {i : Nat} {s0 s : Server} (h : Keep i s0 s) (f : Client → Cli
   unfold modObj
   rcases getObj_setObj_self_cases s i (f (getObj s i)) with e | e
   · exact ⟨by rw [e, f1]; exact h.conn, by rw [e, f2]; exact h.ver, by rw [e, f3]; exact h.isOpen,
-      by rw [e, f4]; exact h.stopped, by rw [e, f5]; exact h.inline, by rw [e, f6]; exact h.peer, h.caps, h.acl⟩
+      by rw [e, f4]; exact h.stopped, by rw [e, f5]; exact h.inline, by rw [e, f6]; exact h.peer, h.caps, h.acl,
+      h.connOf, h.hook⟩
   · exact ⟨by rw [e]; exact h.conn, by rw [e]; exact h.ver, by rw [e]; exact h.isOpen,
-      by rw [e]; exact h.stopped, by rw [e]; exact h.inline, by rw [e]; exact h.peer, h.caps, h.acl⟩
+      by rw [e]; exact h.stopped, by rw [e]; exact h.inline, by rw [e]; exact h.peer, h.caps, h.acl, h.connOf, h.hook⟩
 
-theorem Keep.live {i conn : Nat} {s s' : Server} (h : Keep i s s') (hc : s'.connOf = s.connOf) (L : Live s conn i) :
+theorem Keep.live {i conn : Nat} {s s' : Server} (h : Keep i s s') (L : Live s conn i) :
     Live s' conn i :=
-  ⟨by rw [hc]; exact L.reg, h.conn.trans L.conn, h.isOpen.trans L.isOpen, h.stopped.trans L.stopped,
+  ⟨by rw [h.connOf]; exact L.reg, h.conn.trans L.conn, h.isOpen.trans L.isOpen, h.stopped.trans L.stopped,
    h.inline.trans L.inline, h.peer.trans L.peer⟩
 
 /-- the UNSUBACK reason code of one filter, given the index state `x` the filter is removed from: 0x91 when the packet
@@ -342,7 +346,7 @@ theorem processUnsubscribe_out {s : Server} {conn i : Nat} (L : Live s conn i) (
       extract_lets +onlyGivenNames rr src s1 s2
       refine ⟨⟨?_, ?_⟩, by simp⟩
       · show Keep i s s2
-        refine (h.1.upd (s' := s1) rfl rfl rfl).mod _ ?_
+        refine (h.1.upd (s' := s1) rfl rfl rfl rfl rfl).mod _ ?_
         intro c
         exact ⟨rfl, rfl, rfl, rfl, rfl, rfl⟩
       · intro rc hrc
@@ -445,7 +449,7 @@ theorem processSubscribe_out {s : Server} {conn i : Nat} (L : Live s conn i) (id
             extract_lets +onlyGivenNames rr src s1 s2
             refine ⟨?_, ?_⟩
             · show Keep i s s2
-              refine (h.upd (s' := s1) rfl rfl rfl).mod _ ?_
+              refine (h.upd (s' := s1) rfl rfl rfl rfl rfl).mod _ ?_
               intro c
               exact ⟨rfl, rfl, rfl, rfl, rfl, rfl⟩
             · show rcs ++ [fin (grantedQos s'.caps sub.qos)] = rcs ++ [subCode s i id sub]
